@@ -96,7 +96,11 @@ impl Config {
 		self.get_hook_rec(name, &mut Vec::new())
 	}
 
-	fn get_hook_rec(&self, name: &str, parents: &mut Vec<String>) -> Result<Vec<hooks::Hook>, Error> {
+	fn get_hook_rec(
+		&self,
+		name: &str,
+		parents: &mut Vec<String>,
+	) -> Result<Vec<hooks::Hook>, Error> {
 		for hook in self.hook.iter() {
 			if name == hook.name {
 				let h = hooks::Hook {
